@@ -304,3 +304,184 @@ func dumpCols(root string) string {
 	b.WriteString("end Gofasta.Gen.Cols\n")
 	return b.String()
 }
+
+// ---- integer functions: parameters and locals are Int (or Bool), statements are assignments, if/else and returns; a return
+// whose last value is not nil (an error) becomes `none`, the other returns become `some (values...)` ----
+
+type intFuncSpec struct{ file, fn string }
+
+var intFuncSpecs = []intFuncSpec{{"pkg/sam/toma.go", "checkArgs"}}
+
+func (t *colTr) intExpr(e ast.Expr) string {
+	switch x := e.(type) {
+	case *ast.ParenExpr:
+		return t.intExpr(x.X)
+	case *ast.Ident:
+		if x.Name == "true" || x.Name == "false" {
+			return x.Name
+		}
+		return x.Name
+	case *ast.BasicLit:
+		if x.Kind == token.INT {
+			return x.Value
+		}
+	case *ast.UnaryExpr:
+		if x.Op == token.SUB {
+			return "(-" + t.intExpr(x.X) + ")"
+		}
+		if x.Op == token.NOT {
+			return "(!" + t.intBool(x.X) + ")"
+		}
+	case *ast.BinaryExpr:
+		switch x.Op {
+		case token.ADD:
+			return "(" + t.intExpr(x.X) + " + " + t.intExpr(x.Y) + ")"
+		case token.SUB:
+			return "(" + t.intExpr(x.X) + " - " + t.intExpr(x.Y) + ")"
+		case token.MUL:
+			return "(" + t.intExpr(x.X) + " * " + t.intExpr(x.Y) + ")"
+		}
+	}
+	return "untranslatable"
+}
+
+func (t *colTr) intBool(e ast.Expr) string {
+	switch x := e.(type) {
+	case *ast.ParenExpr:
+		return t.intBool(x.X)
+	case *ast.Ident:
+		return x.Name
+	case *ast.UnaryExpr:
+		if x.Op == token.NOT {
+			return "(!" + t.intBool(x.X) + ")"
+		}
+	case *ast.BinaryExpr:
+		switch x.Op {
+		case token.LAND:
+			return "(" + t.intBool(x.X) + " && " + t.intBool(x.Y) + ")"
+		case token.LOR:
+			return "(" + t.intBool(x.X) + " || " + t.intBool(x.Y) + ")"
+		case token.EQL:
+			return "(decide (" + t.intExpr(x.X) + " = " + t.intExpr(x.Y) + "))"
+		case token.NEQ:
+			return "(decide (" + t.intExpr(x.X) + " ≠ " + t.intExpr(x.Y) + "))"
+		case token.LSS:
+			return "(decide (" + t.intExpr(x.X) + " < " + t.intExpr(x.Y) + "))"
+		case token.LEQ:
+			return "(decide (" + t.intExpr(x.X) + " ≤ " + t.intExpr(x.Y) + "))"
+		case token.GTR:
+			return "(decide (" + t.intExpr(x.X) + " > " + t.intExpr(x.Y) + "))"
+		case token.GEQ:
+			return "(decide (" + t.intExpr(x.X) + " ≥ " + t.intExpr(x.Y) + "))"
+		}
+	}
+	return "untranslatable"
+}
+
+// statements -> a Lean expression of type Option (...) given the continuation text for "fall through"
+func (t *colTr) intStmts(stmts []ast.Stmt, vars []string, indent string, fall string) string {
+	tuple := "(" + strings.Join(vars, ", ") + ")"
+	if len(stmts) == 0 {
+		return indent + fall
+	}
+	st, rest := stmts[0], stmts[1:]
+	switch s := st.(type) {
+	case *ast.AssignStmt:
+		if len(s.Lhs) == 1 && len(s.Rhs) == 1 && containsStr(vars, identName(s.Lhs[0])) {
+			return fmt.Sprintf("%slet %s := %s\n%s", indent, identName(s.Lhs[0]), t.intExpr(s.Rhs[0]), t.intStmts(rest, vars, indent, fall))
+		}
+	case *ast.ReturnStmt:
+		n := len(s.Results)
+		if n > 0 && identName(s.Results[n-1]) == "nil" {
+			var vs []string
+			for _, r := range s.Results[:n-1] {
+				vs = append(vs, t.intExpr(r))
+			}
+			return indent + "some (" + strings.Join(vs, ", ") + ")"
+		}
+		return indent + "none"
+	case *ast.IfStmt:
+		// does either branch return? then the rest of the block is the continuation of the branches that do not
+		returns := func(b *ast.BlockStmt) bool { return b != nil && len(b.List) > 0 && isReturn(b.List[len(b.List)-1]) }
+		var elseB *ast.BlockStmt
+		if eb, ok := s.Else.(*ast.BlockStmt); ok {
+			elseB = eb
+		} else if s.Else != nil {
+			return indent + "untranslatable"
+		}
+		if returns(s.Body) || returns(elseB) {
+			restTxt := t.intStmts(rest, vars, indent+"  ", fall)
+			thenTxt := t.intStmts(s.Body.List, vars, indent+"  ", strings.TrimSpace(restTxt))
+			elseTxt := restTxt
+			if elseB != nil {
+				elseTxt = t.intStmts(elseB.List, vars, indent+"  ", strings.TrimSpace(restTxt))
+			}
+			return fmt.Sprintf("%sif %s then (\n%s)\n%selse (\n%s)", indent, t.intBool(s.Cond), thenTxt, indent, elseTxt)
+		}
+		thenTxt := t.intStmts(s.Body.List, vars, indent+"    ", tuple)
+		elseTxt := indent + "    " + tuple
+		if elseB != nil {
+			elseTxt = t.intStmts(elseB.List, vars, indent+"    ", tuple)
+		}
+		return fmt.Sprintf("%slet %s := if %s then (\n%s)\n%s  else (\n%s)\n%s", indent, tuple, t.intBool(s.Cond), thenTxt, indent, elseTxt, t.intStmts(rest, vars, indent, fall))
+	}
+	return indent + "untranslatable"
+}
+
+func isReturn(s ast.Stmt) bool {
+	_, ok := s.(*ast.ReturnStmt)
+	return ok
+}
+
+func dumpIntFuncs(root string) string {
+	var b strings.Builder
+	b.WriteString("\nnamespace Gofasta.Gen.Cols\n\n")
+	for _, sp := range intFuncSpecs {
+		fset := token.NewFileSet()
+		matches, _ := filepath.Glob(filepath.Join(root, filepath.Dir(sp.file), "*.go"))
+		var fd *ast.FuncDecl
+		for _, f := range matches {
+			if strings.HasSuffix(f, "_test.go") {
+				continue
+			}
+			af, err := parser.ParseFile(fset, f, nil, 0)
+			if err != nil {
+				continue
+			}
+			for _, d := range af.Decls {
+				if x, ok := d.(*ast.FuncDecl); ok && x.Name.Name == sp.fn && x.Recv == nil && x.Body != nil {
+					fd = x
+				}
+			}
+		}
+		name := filepath.Base(filepath.Dir(sp.file)) + "_" + sp.fn
+		if fd == nil {
+			fmt.Fprintf(&b, "-- %s %s: not found\n", sp.file, sp.fn)
+			continue
+		}
+		t := &colTr{fset: fset, vars: map[string]string{}}
+		var params, vars []string
+		for _, fl := range fd.Type.Params.List {
+			for _, n := range fl.Names {
+				params = append(params, n.Name)
+				vars = append(vars, n.Name)
+			}
+		}
+		// locals introduced by := at the top level
+		body := fd.Body.List
+		var pre strings.Builder
+		for len(body) > 0 {
+			as, ok := body[0].(*ast.AssignStmt)
+			if !ok || as.Tok != token.DEFINE || len(as.Lhs) != 1 {
+				break
+			}
+			fmt.Fprintf(&pre, "  let %s := %s\n", identName(as.Lhs[0]), t.intExpr(as.Rhs[0]))
+			vars = append(vars, identName(as.Lhs[0]))
+			body = body[1:]
+		}
+		fmt.Fprintf(&b, "/-- %s, %s: translated statement by statement (an error return is `none`) -/\n", sp.file, sp.fn)
+		fmt.Fprintf(&b, "def %s (%s : Int) :=\n%s%s\n\n", name, strings.Join(params, " "), pre.String(), t.intStmts(body, vars, "  ", "untranslatable"))
+	}
+	b.WriteString("end Gofasta.Gen.Cols\n")
+	return b.String()
+}
